@@ -70,7 +70,8 @@ def run(ctx, rep):
             r.missing("Context::" + ctor)
             continue
         aggs = [(bb, idx, rv) for bb, idx, place, rv, _ in b.assignments()
-                if rv["k"] == "agg" and rv.get("adt") == "processor::Context" and place["l"] == 0]
+                if rv["k"] == "agg" and rv.get("adt") == "processor::Context" and place["l"] in common.ret_locals(b)
+                and not place["p"]]
         if len(aggs) != 1:
             r.bad(ctor + "#aggregate", "expected one Context aggregate assigned to the return place, found %d"
                   % len(aggs), b.where())
@@ -118,7 +119,7 @@ def run(ctx, rep):
                   "with_variable / with_definition and their first two arguments in the incoming context", floor=2,
                   analysis="A4 provenance of the context argument of each Arguments::apply / Get::get call")
     for fn, ctor in (("set", "with_variable"), ("define", "with_definition")):
-        bs = [bd for n, bd in lib.bodies.items() if n.startswith("<functions::variables::%s::get::" % fn)
+        bs = [bd for n, bd in lib.bodies.items() if n.startswith("<functions::variables::%s::" % fn)
               and n.endswith("as selection::Get>::get")]
         key = "variables::%s" % fn
         if not bs:
@@ -151,7 +152,7 @@ def run(ctx, rep):
                    b.where())
     r4 = rep.rule("C12-PIPE", "(| a b ...) evaluates every later stage in with_inupt(previous value) of the "
                   "context it received", floor=1, analysis="A4 provenance")
-    bs = [bd for n, bd in lib.bodies.items() if n.startswith("<functions::basic::flow::pipe::get::")
+    bs = [bd for n, bd in lib.bodies.items() if n.startswith("<functions::basic::flow::pipe::")
           and n.endswith("as selection::Get>::get")]
     if not bs:
         r4.missing("functions::basic::flow::pipe")
